@@ -38,7 +38,7 @@ Proof.
 Qed.
 
 (* the composition, for any style without LAZY and TERMALL whose encoder run is one MQ codeword *)
-Lemma single_codeword_core :
+Lemma single_codeword_core2 :
   forall (wn hn : nat) (orient style fb : Z) (data : list Z),
   Z.land style CblkStyleLazy = 0 -> Z.land style CblkStyleTermAll = 0 ->
   length data = (wn * hn)%nat -> data_ok data -> 0 <= fb ->
@@ -49,8 +49,12 @@ Lemma single_codeword_core :
    fb <= maxbp -> chain maxbp 2 pl -> Forall (Forall sym_mq) syms ->
    exists e' term ps,
      enc_bytes_passes style maxbp pl syms false (enc_new_cx cx0) = Ok ((e', term), ps) /\ length ps = length pl /\
-     (if term : bool then enc_get_buffer e' else enc_flush e') =
-     enc_flush (enc_mq_passes (negb (Z.land style CblkStyleReset =? 0)) (enc_new_cx cx0) (map decs syms))) ->
+     (if term : bool then enc_get_buffer e' else enc_flush e') <> [] /\
+     exists dd, dec_new_cx (if term : bool then enc_get_buffer e' else enc_flush e') cx0 = Ok dd /\
+       match syms with
+       | [] => True
+       | s0 :: symr => dec_future (negb (Z.land style CblkStyleReset =? 0)) dd (decs s0) (map decs symr)
+       end) ->
   t1_roundtrip wn hn orient style fb data = Ok data.
 Proof.
   intros wn hn orient style fb data Elazy Etermall Hlen Hok Hfb Hmul Henc.
@@ -74,16 +78,18 @@ Proof.
     assert (Hsl : length syms = length pl) by apply enc_passes_length.
     assert (Hsy : Forall (Forall sym_mq) syms) by (apply enc_passes_syms_nolazy; exact Elazy).
     rewrite enc_init.
-    destruct (Henc Hge Hchain Hsy) as (e' & term & ps & Eenc & Hpl0 & Hbytes0).
+    destruct (Henc Hge Hchain Hsy) as (e' & term & ps & Eenc & Hpl0 & Hne0 & dd & Edd0 & Hfut0).
     assert (Hpl : length ps = length pl) by exact Hpl0.
-    assert (Hbytes : (if term then enc_get_buffer e' else enc_flush e') =
-                     enc_flush (enc_mq_passes (negb (Z.land style CblkStyleReset =? 0)) (enc_new_cx cx0) (map decs syms)))
-      by exact Hbytes0.
-    clear Hpl0 Hbytes0.
+    assert (Hfut : match syms with
+                   | [] => True
+                   | s0 :: symr => dec_future (negb (Z.land style CblkStyleReset =? 0)) dd (decs s0) (map decs symr)
+                   end) by exact Hfut0.
+    clear Hpl0 Hfut0.
     match goal with |- context [enc_bytes_passes ?a ?b ?c ?d ?e ?f] =>
       replace (enc_bytes_passes a b c d e f) with (Ok ((e', term), ps)) by (symmetry; exact Eenc) end.
     cbn [obind].
     remember (if term then enc_get_buffer e' else enc_flush e') as bytes eqn:Ebytes0.
+    rename Hne0 into Hne. rename Edd0 into Edd.
     remember (rev (normalize_rev bytes (rev ps) (zlen bytes))) as ps' eqn:Eps'.
     assert (Hps' : length ps' = length pl).
     { subst ps'. rewrite rev_length, normalize_rev_length, rev_length. exact Hpl. }
@@ -94,13 +100,7 @@ Proof.
     destruct ps' as [|p0 psr]; [cbn [length] in Hps'; lia|].
     (* the MQ codeword *)
     destruct syms as [|s0 symr] eqn:Esyms; [cbn [length] in Hsl; lia|].
-    cbn [map] in Hbytes.
     pose proof (Forall_inv Hsy) as Hs0. pose proof (Forall_inv_tail Hsy) as Hsr.
-    destruct (mq_passes_future (negb (Z.land style CblkStyleReset =? 0)) cx0 (decs s0) (map decs symr) cx0_ok
-                ltac:(rewrite cx0_len; apply sym_mq_decision; exact Hs0)
-                ltac:(rewrite cx0_len; apply Forall_map; eapply Forall_impl; [|exact Hsr]; intros l0 Hl0; apply sym_mq_decision; exact Hl0))
-      as (Hne & dd & Edd & Hfut).
-    rewrite <- Hbytes in Hne, Edd.
     destruct (dec_new_set3 bytes dd Edd) as (dnew & Enew & Eset).
     (* the decoder *)
     destruct bytes as [|by0 byr]; [congruence|].
@@ -133,6 +133,42 @@ Proof.
     + destruct b as [st2 c2]. destruct Hb as [Hst _]. cbn [fst] in Hst. subst st2.
       match goal with |- obind ?X _ = _ => replace X with (Ok (st, c2)) by (symmetry; exact Eb) end.
       cbn [obind fst snd]. f_equal. exact Hdata.
+Qed.
+
+Lemma single_codeword_core :
+  forall (wn hn : nat) (orient style fb : Z) (data : list Z),
+  Z.land style CblkStyleLazy = 0 -> Z.land style CblkStyleTermAll = 0 ->
+  length data = (wn * hn)%nat -> data_ok data -> 0 <= fb ->
+  (forall v, In v data -> exists c, v = c * 2 ^ fb) ->
+  (let maxbp := find_max_bitplane data in
+   let pl := pass_list maxbp fb (3 * (maxbp - fb + 1) - 2) in
+   let syms := enc_passes wn hn orient style maxbp (pad_data wn hn data) pl true Leaf in
+   fb <= maxbp -> chain maxbp 2 pl -> Forall (Forall sym_mq) syms ->
+   exists e' term ps,
+     enc_bytes_passes style maxbp pl syms false (enc_new_cx cx0) = Ok ((e', term), ps) /\ length ps = length pl /\
+     (if term : bool then enc_get_buffer e' else enc_flush e') =
+     enc_flush (enc_mq_passes (negb (Z.land style CblkStyleReset =? 0)) (enc_new_cx cx0) (map decs syms))) ->
+  t1_roundtrip wn hn orient style fb data = Ok data.
+Proof.
+  intros wn hn orient style fb data Elazy Etermall Hlen Hok Hfb Hmul Henc.
+  apply single_codeword_core2; auto.
+  intros maxbp pl syms Hge Hchain Hsy.
+  destruct (Henc Hge Hchain Hsy) as (e' & term & ps & Eenc & Hpl & Hbytes).
+  exists e', term, ps. split; [exact Eenc|]. split; [exact Hpl|].
+  fold maxbp pl syms in Hbytes. rewrite Hbytes.
+  assert (Hsl : length syms = length pl) by apply enc_passes_length.
+  destruct syms as [|s0 symr] eqn:Esyms.
+  - (* no pass: cannot happen (fb <= maxbp), but the statement is easy anyway *)
+    cbn [map enc_mq_passes].
+    destruct (mq_passes_future false cx0 [] [] cx0_ok ltac:(constructor) ltac:(constructor)) as (Hne & dd & Edd & _).
+    cbn [enc_mq_passes enc_encode_list] in Hne, Edd. split; [exact Hne|]. exists dd. auto.
+  - cbn [map].
+    pose proof (Forall_inv Hsy) as Hs0. pose proof (Forall_inv_tail Hsy) as Hsr.
+    destruct (mq_passes_future (negb (Z.land style CblkStyleReset =? 0)) cx0 (decs s0) (map decs symr) cx0_ok
+                ltac:(rewrite cx0_len; apply sym_mq_decision; exact Hs0)
+                ltac:(rewrite cx0_len; apply Forall_map; eapply Forall_impl; [|exact Hsr]; intros l0 Hl0; apply sym_mq_decision; exact Hl0))
+      as (Hne & dd & Edd & Hfut).
+    split; [exact Hne|]. exists dd. auto.
 Qed.
 
 Theorem t1_bytes_roundtrip_single_codeword :
